@@ -93,6 +93,10 @@ const (
 	unwrapOtherKey = 1 // a different 32-byte key
 	unwrapBadLen   = 2 // a key of the wrong length, no error
 	unwrapError    = 3 // (nil, error)
+	// (a 32-byte slice, error): callbacks that report failure and return a buffer all the same - a pre-allocated, still
+	// zeroed output buffer, or whatever the last attempt left in it. The error is the answer; the bytes are not a key.
+	unwrapErrZeroKey  = 4
+	unwrapErrOtherKey = 5
 )
 
 var otherKey = bytes.Repeat([]byte{0xa5, 0x3c}, 16)
@@ -110,6 +114,10 @@ func (u unwrapSpec) String() string {
 		return "unwrap=other-key"
 	case unwrapBadLen:
 		return fmt.Sprintf("unwrap=wrong-length(%d)", u.Len)
+	case unwrapErrZeroKey:
+		return "unwrap=error+32-zero-bytes"
+	case unwrapErrOtherKey:
+		return "unwrap=error+other-key-bytes"
 	}
 	return "unwrap=error"
 }
@@ -125,6 +133,10 @@ func (u unwrapSpec) fn() enc.UnwrapKeyFn {
 			return bytes.Clone(otherKey), nil
 		case unwrapBadLen:
 			return bytes.Repeat([]byte{0x11}, u.Len), nil
+		case unwrapErrZeroKey:
+			return make([]byte, 32), errVault
+		case unwrapErrOtherKey:
+			return bytes.Clone(otherKey), errVault
 		}
 		return nil, errVault
 	}
